@@ -230,16 +230,88 @@ def rule_r2_r3_r4(ctx, rep):
     rep.floor("expansion loops", 1)
 
 
+def rule_r5(ctx, rep):
+    """an id used twice is reported: every key that enters the id register of _register_ids either enters an empty register or is
+    tested against it first, the test raising ValueError"""
+    prog = ctx.prog
+    fi = prog.func("metapype.eml.references._register_ids")
+    rep.touch(fi)
+    rets = {norm(r.value) for r in ast.walk(fi.node) if isinstance(r, ast.Return) and r.value is not None}
+    if len(rets) != 1:
+        raise AnalysisError("_register_ids: cannot single out the register it returns")
+    reg = rets.pop()
+    stores, merges = [], []
+    for n in ast.walk(fi.node):
+        if isinstance(n, ast.Assign):
+            for t in n.targets:
+                if isinstance(t, ast.Subscript) and norm(t.value) == reg:
+                    stores.append((n, norm(t.slice)))
+                if isinstance(t, ast.Name) and t.id == reg and isinstance(n.value, ast.Dict) and any(k is None for k in n.value.keys):
+                    others = [norm(v) for k, v in zip(n.value.keys, n.value.values) if k is None and norm(v) != reg]
+                    merges.append((n, others))
+        if isinstance(n, ast.Call) and isinstance(n.func, ast.Attribute) and n.func.attr == "update" and norm(n.func.value) == reg and n.args:
+            merges.append((n, [norm(n.args[0])]))
+    rep.count("entries into the id register", len(stores) + len(merges))
+    md = MarkDomain()
+    for (n, _k) in stores:
+        md.probe(n)
+        md.mark(n, "NONEMPTY")
+    for (n, _o) in merges:
+        md.probe(n)
+        md.mark(n, "NONEMPTY")
+    # guards: `k in reg` (true branch raises ValueError)
+    for n in ast.walk(fi.node):
+        if isinstance(n, ast.If) and isinstance(n.test, ast.Compare) and len(n.test.ops) == 1 and isinstance(n.test.ops[0], (ast.In, ast.NotIn)) \
+                and norm(n.test.comparators[0]) == reg:
+            raising = n.body if isinstance(n.test.ops[0], ast.In) else n.orelse
+            ok_raise = any(isinstance(x, ast.Raise) and resolve_exc_class(prog, fi.module, x.exc) == "ValueError" for s_ in raising for x in ast.walk(s_))
+            if ok_raise:
+                key = norm(n.test.left)
+                if isinstance(n.test.ops[0], ast.In):
+                    md.mark_test(n.test, if_false=[f"CHK:{key}"])
+                else:
+                    md.mark_test(n.test, if_true=[f"CHK:{key}"])
+                # a loop `for k in X(.keys())` whose body is this guard checks every key of X
+                for lp in ast.walk(fi.node):
+                    if isinstance(lp, ast.For) and isinstance(lp.target, ast.Name) and lp.target.id == key and any(x is n for x in ast.walk(lp)):
+                        src = norm(lp.iter).replace(".keys()", "")
+                        md.mark(lp.iter, f"CHKALL:{src}")
+    run_marks(ctx, fi, md)
+    for (n, key) in stores:
+        may, must = may_at(md, n), must_at(md, n)
+        if may is None:
+            continue
+        # a store under `a == "id"` inside the loop over the node's own attributes happens at most once (dict keys are unique)
+        own_once = any(isinstance(lp, ast.For) and any(x is n for x in ast.walk(lp)) and "attributes" in norm(lp.iter) for lp in ast.walk(fi.node))
+        empty_before = "NONEMPTY" not in may or (own_once and not any(("NONEMPTY" in (may_at(md, m) or ())) and m is not n and m.lineno < n.lineno for (m, _k) in stores + merges))
+        ok = empty_before or f"CHK:{key}" in (must or frozenset())
+        rep.oblige(("R5", "store", norm(n)), ok)
+        if not ok:
+            rep.add("R5", fi.qname, n, f"the id `{key}` is entered into a register that may already hold it, without a test that raises ValueError: "
+                    f"an id shared by two elements (e.g. an element and one of its descendants) goes unnoticed", fi.loc(n))
+    for (n, others) in merges:
+        may, must = may_at(md, n), must_at(md, n)
+        if may is None:
+            continue
+        ok = all(f"CHKALL:{o}" in (must or frozenset()) for o in others)
+        rep.oblige(("R5", "merge", norm(n)), ok)
+        if not ok:
+            rep.add("R5", fi.qname, n, "the ids of a child subtree are merged into the register without testing each of them against it first", fi.loc(n))
+    rep.floor("entries into the id register", 2)
+
+
 def run(ctx, rep):
     rep.explanation = (
         "references.expand: no failure point (explicit raise or undischarged partial operation, from the escape analysis) is reachable "
         "after a write to the tree, loop back edges included (may-dataflow of a WROTE marker); the copies are inserted with an index "
         "that is the position of the references node taken before its removal and advanced per copy; what is attached is a recursive "
         "copy and goes to the reference's parent; every collected reference is removed unconditionally and unregistered")
-    rep.rules_run = ["R1", "R2", "R3", "R4"]
+    rep.rules_run = ["R1", "R2", "R3", "R4", "R5"]
     rep.assumptions += ["NOT decided: that the expanded tree validates (needs C01 semantics); independence of the copies is C12"]
     only = getattr(rep, "only", None)
     if only in (None, "R1"):
         rule_r1(ctx, rep)
     if only in (None, "R2", "R3", "R4"):
         rule_r2_r3_r4(ctx, rep)
+    if only in (None, "R5"):
+        rule_r5(ctx, rep)
